@@ -1,3 +1,4 @@
 //! Reference models written from the RFC text; they share no code with hickory.
 pub mod canon;
 pub mod wire_ref;
+pub mod dnswire;
